@@ -1,9 +1,10 @@
 #!/bin/bash
 # Build the whole Coq development from files on disk (offline), full .vo build.
-set -e
+# make -k: one broken file must not prevent the other properties' proofs from building;
+# each check rebuilds (and judges) its own targets anyway.
 cd "$(dirname "$0")/../coq"
-coq_makefile -f _CoqProject -o Makefile > /dev/null
-timeout 3400 make -j16 2>&1 | tail -5
+coq_makefile -f _CoqProject -o Makefile > /dev/null || exit 1
+timeout 3400 make -k -j16 2>&1 | grep -v '^COQC\|^COQDEP\|^CLEAN' | tail -15
 cd ..
 # no Admitted / Axiom / ... anywhere (comments stripped by the scanner)
 PYTHONPATH=. /venv/bin/python -c "
